@@ -567,7 +567,7 @@ static void c10Case(Rng &rng, CaseResult &r) {
 // ------------------------------------------------------------------------------------------------
 int main(int argc, char **argv) {
   std::vector<vf::Part> parts;
-  auto add = [&](const std::string &name, vf::CaseFn fn, double budget = 60) { parts.push_back({name, fn, budget}); };
+  auto add = [&](const std::string &name, vf::CaseFn fn, double budget = 20) { parts.push_back({name, fn, budget}); };
   for (std::string prof : {"general", "rowhigh-any", "multirow", "turned", "polarity", "dense", "obstruction", "big"}) {
     add("c01." + prof, [prof](uint64_t, Rng &rng, CaseResult &r) { flowCase(rng, r, prof, O_C01); });
     add("c02.api." + prof, [prof](uint64_t, Rng &rng, CaseResult &r) { flowCase(rng, r, prof, O_C02); });
@@ -582,8 +582,8 @@ int main(int argc, char **argv) {
     add("c11.relegalize." + prof, [prof](uint64_t, Rng &rng, CaseResult &r) { flowCase(rng, r, prof, O_C11); });
   add("c11.constructed", [](uint64_t, Rng &rng, CaseResult &r) { c11Constructed(rng, r); });
   for (std::string prof : {"general", "degenerate", "big", "wide", "dense", "multirow", "obstruction"})
-    add("c07." + prof, [prof](uint64_t, Rng &rng, CaseResult &r) { c07Case(rng, r, prof, false); }, 120);
-  add("c07.paramfuzz", [](uint64_t, Rng &rng, CaseResult &r) { c07Case(rng, r, "general", true); }, 120);
-  add("c10.enum", [](uint64_t, Rng &rng, CaseResult &r) { c10Case(rng, r); }, 300);
+    add("c07." + prof, [prof](uint64_t, Rng &rng, CaseResult &r) { c07Case(rng, r, prof, false); }, 60);
+  add("c07.paramfuzz", [](uint64_t, Rng &rng, CaseResult &r) { c07Case(rng, r, "general", true); }, 60);
+  add("c10.enum", [](uint64_t, Rng &rng, CaseResult &r) { c10Case(rng, r); }, 60);
   return vf::runMain(argc, argv, parts);
 }
